@@ -662,6 +662,71 @@ case("regen5-journal", "adv/regen5", ["Journal"])
 case("regen5-journal-resets", "adv/regen5", ["Journal"], resets=True)
 
 
+# shapes a template might special-case: fluent builders, io.Reader, big value parameters, nested embedding
+FILES["adv/special/a.go"] = """package special
+
+type Query interface {
+	Limit(n int) Query
+	Where(cond string, args ...interface{}) Query
+	Run() error
+}
+
+type Source interface {
+	Read(p []byte) (int, error)
+	Close() error
+}
+
+type Big struct {
+	A, B, C, D, E, F, G, H, I, J, K, L int64
+	Name string
+}
+
+type Ledger interface {
+	Put(entry Big, note string) error
+	Get(id int64) (Big, bool)
+}
+
+type Reader interface {
+	Next() (string, error)
+	Close() error
+}
+
+type Writer interface {
+	Emit(s string) error
+	Close() error
+}
+
+type Stream interface {
+	Reader
+	Writer
+}
+
+type File interface {
+	Stream
+	Name() string
+}
+
+type Logger interface {
+	Info(msg string, context ...interface{})
+	Printf(string, ...interface{})
+	Id() string
+	Url(Id string) string
+}
+
+type Private interface {
+	Logger
+	touch()
+	reset(hard bool) error
+}
+"""
+flagsets("special-query", "adv/special", ["Query"], modes=("",))
+flagsets("special-source", "adv/special", ["Source"], modes=("",))
+flagsets("special-ledger", "adv/special", ["Ledger"], modes=("",))
+flagsets("special-file", "adv/special", ["File"], modes=("",))
+flagsets("special-logger", "adv/special", ["Logger"], modes=("",))
+flagsets("special-private", "adv/special", ["Private"], modes=("",))
+
+
 def write_all(root, write):
     for rel, (name, decls) in EXTRA_DEPS.items():
         write(os.path.join(root, rel, "x.go"), "package %s\n\n%s" % (name, decls))
